@@ -303,6 +303,9 @@ def run(ctx):
     kani.settle(ctx, res, lambda h: "mask_" + h.split("k_mask_")[1])
     ctx.functions.update("spirv::%s::from_bits" % m for m in masks)
     ctx.bounds.append("masks: all 2^32 numbers for each of the %d bitflags types (Kani/CBMC)" % len(masks))
+    # ---------------- the decoder's typed requests accept exactly the declared values of their kind (MIR over the word() contract)
+    import c11
+    ctx.extra["typed_requests_decided_from_mir"] = c11.typed_requests_mir(ctx)
     ctx.extra["enums"] = len(enums)
     ctx.extra["range_arms"] = sum(len(d["ranges"] or []) for d in enums.values())
     ctx.extra["masks"] = len(masks)
